@@ -40,7 +40,7 @@ def select(t, c):
             return ("C13|no-value-after-resolve", "after solve %d: %s" % (step, name))
         if base in ("inequality-violated-at-the-instance", "equality-violated-at-the-instance", "lmi-violated-at-the-instance"):
             return None       # consequence of stale constraint values; reported through the clauses above
-    if step >= 2 and prop == "C01":
+    if step >= 2 and prop == "C01" and not name.startswith("identity-with-lmi-not-symmetric"):     # (that one is finding F7 of C01)
         first = [x for x in t.get("_clauses", []) if x[0] == 1 and x[1] == "C01" and x[2] == name]
         if not first:
             return "C13|certificate-of-latest-solve|%s" % name, "solve %d: %s" % (step, name)
